@@ -69,7 +69,14 @@ async fn one(ctx: &mut Ctx, case: u64, rng: &mut Rng) {
     let uni = Universe::new(rng, 1);
     let ns = uni.ns.id();
     let mut store = Store::memory();
-    import_write(&mut store, &uni.ns);
+    // one document in four starts read-only (remote entries are accepted, local writes refused) and
+    // is upgraded at some step while it is open and has subscribers
+    let mut read_only = rng.chance(1, 4);
+    if read_only {
+        store.import_namespace(iroh_docs::Capability::Read(ns)).unwrap();
+    } else {
+        import_write(&mut store, &uni.ns);
+    }
     for a in &uni.authors {
         store.import_author(a.clone()).unwrap();
     }
@@ -100,9 +107,25 @@ async fn one(ctx: &mut Ctx, case: u64, rng: &mut Rng) {
         // expectations for this step
         let mut expect: Option<Vec<Ev>> = None; // exact expected event list (single-entry ingress)
         let mut multi: Option<(Vec<(SignedEntry, bool, u8)>, Model)> = None; // (entries with validity and status, dump before)
-        let op = rng.below(12);
+        let mut op = rng.below(12);
         let from = [0x50 + rng.below(3) as u8; 32];
+        if rng.chance(1, 10) {
+            op = 100;
+        }
         match op {
+            100 => {
+                // a capability import for the open document: nothing enters the replica, no event, and
+                // every subscriber stays attached (checked by the steps that follow)
+                let write = read_only || rng.chance(1, 2);
+                let cap = if write { iroh_docs::Capability::Write(uni.ns.clone()) } else { iroh_docs::Capability::Read(ns) };
+                let r = h.import_namespace(cap).await;
+                trace.push(format!("import {} capability{} -> {}", if write { "write" } else { "read" }, if write && read_only { " (upgrade of the open document)" } else { "" }, r.is_ok()));
+                if write && read_only && r.is_ok() {
+                    ctx.count("capability_upgrades_while_open_with_subscribers", subs.iter().any(|s| s.active) as u64);
+                    read_only = false;
+                }
+                expect = Some(vec![]);
+            }
             0 => {
                 if subs.iter().filter(|s| s.active).count() < 4 {
                     let tx = new_sub(&mut subs);
